@@ -47,6 +47,8 @@ class Result:
     sample: Any = None  # human readable rendering of the case
     ref_error: bool = False  # reference itself raised: nothing required
     known: Optional[str] = None  # id of the open known finding this failure belongs to
+    counts: dict = field(default_factory=dict)  # extra counters merged into the label histogram
+    extra_keys: List[str] = field(default_factory=list)  # further distinct non-trivial units (e.g. pairs) of this case
 
     def fail(self, msg: str) -> "Result":
         if self.ok:
@@ -76,6 +78,9 @@ def quiet_logs():
     import logging
 
     logging.disable(logging.CRITICAL)
+    import warnings
+
+    warnings.simplefilter("ignore")
 
 
 def case_key(case) -> str:
@@ -122,6 +127,10 @@ class Stats:
         self.evaluations += 1
         for lb in res.labels:
             self.labels[lb] += 1
+        for lb, n in res.counts.items():
+            self.labels[lb] += n
+        for k in res.extra_keys:
+            self.nontrivial.add(sha(k)[:16])
         if res.ref_error:
             self.ref_errors += 1
         if res.known:
